@@ -52,6 +52,17 @@ def evaluate(case):
         _, v, e = t.fourier_transform(x.copy(), y.copy(), xo.copy(), xmax=xmax, dy_in=None if dy is None else dy.copy(), lorch=True)
         res.append((v.copy(), e.copy()))
     v0, e0 = res[0]
+    if float(np.abs(y).max(initial=0.0)) < 1e100:
+        # "for every finite input": also in a process that turned floating-point warnings into errors (np.seterr(all="raise")) —
+        # the weight at x = 0 is 1 by definition, no 0/0 is to be evaluated and silenced
+        try:
+            with np.errstate(all="raise"):
+                _, vr, er = t.fourier_transform(x.copy(), y.copy(), xo.copy(), xmax=xmax, dy_in=None if dy is None else dy.copy(), lorch=True)
+            if not (np.array_equal(vr, v0, equal_nan=True) and np.array_equal(er, e0, equal_nan=True)):
+                fails.append("fourier_transform(lorch=True): result changes with the process's floating-point error state")
+        except FloatingPointError as ex:
+            fails.append(f"fourier_transform(lorch=True): raises FloatingPointError ({str(ex)[:60]}) for finite input when numpy errors are set to 'raise'"
+                         + (" (grid contains x=0)" if case["zero"] else ""))
     if not (np.isfinite(v0).all() and np.isfinite(e0).all()):
         fails.append("fourier_transform(lorch=True): non-finite result for finite input"
                      + (" (grid contains x=0; freed memory poisoned with NaN)" if case["zero"] else ""))
